@@ -55,7 +55,13 @@ func (t *T) GetRemovePrefixKey() string {
 }
 
 func (t *T) GetKeyValue() *T {
-	return t.val.(*T)
+	valueT, ok := t.val.(*T)
+	if !ok {
+		// not a key/value entry (a hash receiver that is really an array, ...)
+		return MakeUntyped()
+	}
+
+	return valueT
 }
 
 // Block parameter accessors
@@ -100,6 +106,10 @@ func (t *T) SetBeforeEvaluateCode(code string) {
 }
 
 func (t *T) GetBeforeEvaluateCode() string {
+	if t == nil {
+		return ""
+	}
+
 	return t.beforeEvaluateCode
 }
 
